@@ -293,6 +293,11 @@ def include_rules(chk, rule, module, rule_ids, what):
     sub, err = cache[ckey]
     if err is not None and not any(r.id in rule_ids for r in sub.rules):
         raise err
+    if err is not None:
+        # the included module stopped with an analysis error somewhere: the rules drawn from it may be incomplete
+        last = sub.rules[-1].id if sub.rules else "?"
+        if any(r.id in rule_ids for r in sub.rules[-1:]) or not all(rid in [r.id for r in sub.rules[:-1]] for rid in rule_ids):
+            rule.undecided("via-%s:analysis-error" % "/".join(rule_ids), "the included rules were not fully evaluated (%s stopped at %s: %s)" % (module.__name__.split("_")[-1], last, str(err)[:200]))
     n = 0
     for key, msg in sub.undecided:
         if key.split(":")[0] in rule_ids and not any(k == "via-" + key for k, m in chk.undecided):
